@@ -33,10 +33,20 @@ RUN_KINDS = ("exit0", "exit1", "exit3", "exit-text", "conn", "uds", "unexpected"
 OUTSIDE = (
     ("lockfault", "lock"),  # the lock file cannot be taken (real fault: its directory does not exist -> OSError)
     ("sigint", "pre-hook"),  # Ctrl-C while the pre-hook runs (the hook process signals gallia)
-    ("sigint", "db-open"),  # Ctrl-C after the database connection is up, before the run row exists
-    ("dbfault", "db-open"),  # database cannot be opened (real fault: parent of the db path is a file)
-    ("sigint", "db-close"),  # Ctrl-C on entry of the database completion
-    ("dbfault", "db-close"),  # completing the run row fails (sqlite OperationalError)
+    # database set-up, one point per await that can be hit (the cancellation is delivered AT that await of gallia's code)
+    ("sigint", "db-open:connect"),  # ... while aiosqlite.connect() is awaited
+    ("sigint", "db-open:schema"),  # ... inside DBHandler.connect() after the connection exists (schema version query)
+    ("sigint", "db-open:insert"),  # ... while the run row is inserted
+    ("dbfault", "db-open:connect"),  # database cannot be opened (real fault: parent of the db path is a file)
+    # database completion (BaseCommand._db_finish_run_meta), again one point per await
+    ("sigint", "db-close:complete-execute"),  # ... at the UPDATE of complete_run_meta()
+    ("sigint", "db-close:complete-commit"),  # ... at the commit of complete_run_meta()
+    ("sigint", "db-close:disconnect-executor"),  # ... in disconnect() while the executor task is joined / cancelled
+    ("sigint", "db-close:disconnect-commit"),  # ... at the final commit of disconnect()
+    ("sigint", "db-close:disconnect-close"),  # ... while the connection is closed
+    ("dbfault", "db-close:complete-execute"),  # completing the run row fails (sqlite OperationalError)
+    ("dbfault", "db-close:disconnect-commit"),  # the final commit fails
+    ("dbfault", "db-close:disconnect-close"),  # closing the connection reports an error
     ("sigint", "post-hook"),  # Ctrl-C while the post-hook runs
 )
 HOOK_VARIANTS = ("off", "ok", "pre-fail", "post-fail", "both-fail")
@@ -45,13 +55,19 @@ PHASE = {
     "none": "run",
     "lock": "before-run",
     "pre-hook": "before-run",
-    "db-open": "before-run",
+    "db-open:connect": "before-run",
+    "db-open:schema": "before-run",
+    "db-open:insert": "before-run",
     "setup-early": "run",
     "setup-late": "run",
     "main": "run",
     "teardown-early": "run",
     "teardown-late": "run",
-    "db-close": "after-run",
+    "db-close:complete-execute": "after-run",
+    "db-close:complete-commit": "after-run",
+    "db-close:disconnect-executor": "after-run",
+    "db-close:disconnect-commit": "after-run",
+    "db-close:disconnect-close": "after-run",
     "post-hook": "after-run",
 }
 
@@ -76,7 +92,7 @@ def reachable(kind: str, point: str, db: bool, hv: str, lock: bool = True) -> bo
         return False
     if point in ("pre-hook", "post-hook") and hv == "off":
         return False
-    if point in ("db-open", "db-close") and not db:
+    if point.startswith("db-") and not db:
         return False
     return True
 
@@ -116,11 +132,14 @@ def base_code(cmd: str, kind: str) -> int:
 def expect(cmd: str, kind: str, point: str) -> Expect:
     if kind == "lockfault":
         return Expect(codes=[], unlisted=True, db_row="optional", run_started=False)
-    if kind == "dbfault" and point == "db-open":
+    if kind == "dbfault" and point.startswith("db-open"):
         return Expect(codes=[], unlisted=True, db_row="any")
-    if kind == "dbfault" and point == "db-close":
+    if kind == "dbfault" and point == "db-close:complete-execute":
         # the run itself ended normally; a database that refuses the final update cannot carry the record
         return Expect(codes=[OK], db_row="any")
+    if kind == "dbfault" and point.startswith("db-close"):
+        # the run row was completed before the connection reported the error: everything must be in place
+        return Expect(codes=[OK])
     if kind == "sigint":
         if PHASE[point] == "after-run":
             # the run's own outcome (0) was already fixed when the signal arrived: either reading is
